@@ -104,14 +104,37 @@ def translate(repo):
     res["psi_is_half_sigma_eps"] = bool(ok and "Sigma_e_pg=self.Calc_Sigma_e_pg(Epsilon_e_pg)" in src)
     if not res["psi_is_half_sigma_eps"]:
         raise TranslateError("%s:Calc_Psi_e_pg is not 1/2 * (Sigma @ Epsilon) with Sigma = Calc_Sigma_e_pg(Epsilon): %s" % (LAWS, rets))
+    # ---- strain / stress arrays (partial evaluation: layout of the code does not matter)
+    from translator.peval import PEval
+    lcls = _find(lm, ast.ClassDef, "_Elastic", LAWS)
+    ret, eff = PEval(lm, lcls, where=LAWS + ":Calc_Epsilon_e_pg").evaluate(_find(lcls, ast.FunctionDef, "Calc_Epsilon_e_pg", LAWS))
+    res["eps_is_B_u"] = (not eff) and (ret or "").replace(" ", "") == "groupElem.Get_B_e_pg(matrixType)@groupElem.Locates_sol_e(sol,asFeArray=True)"
+    if not res["eps_is_B_u"]:
+        raise TranslateError("%s:Calc_Epsilon_e_pg is not Get_B_e_pg(matrixType) @ Locates_sol_e(sol): %s %r" % (LAWS, ret, eff[:1]))
+    ret, eff = PEval(lm, lcls, where=LAWS + ":Calc_Sigma_e_pg").evaluate(_find(lcls, ast.FunctionDef, "Calc_Sigma_e_pg", LAWS))
+    got = (ret or "").replace(" ", "")
+    eps = "FeArray.asfearray(Epsilon_e_pg)"
+    okv = ["(FeArray.broadcast(self.C,%s.shape[:2][0],%s.shape[:2][1],tensor_ndim=2)ifself.isHeterogeneouselseFeArray.asfearray(self.C,True))@%s" % (eps, eps, eps),
+           "FeArray.asfearray(self.C,True)@%s" % eps]
+    res["sigma_is_C_eps"] = (not eff) and got in okv
+    if not res["sigma_is_C_eps"]:
+        raise TranslateError("%s:Calc_Sigma_e_pg is not C @ Epsilon: %s" % (LAWS, ret))
+    for mname, want in (("_Calc_Epsilon_e_pg", "self.material.Calc_Epsilon_e_pg(u,"), ("_Calc_Sigma_e_pg", "self.material.Calc_Sigma_e_pg(")):
+        ret, eff = PEval(em, cls, where=ELASTIC + ":" + mname).evaluate(_find(cls, ast.FunctionDef, mname, ELASTIC))
+        if want not in (ret or "").replace(" ", ""):
+            raise TranslateError("%s:%s does not delegate to the material law: %s" % (ELASTIC, mname, ret))
+    # ---- B layout of Get_B_e_pg (shared reader of translator/c13_builtins.py)
+    from translator import c13_builtins as T_bi
+    res["B"] = T_bi.b_layout(T_bi.Ev(repo))
     return res
 
 
 def emit_coq(res):
+    from translator import c13_builtins as T_bi
     b = lambda x: "true" if x else "false"
-    return "\n".join(["(* GENERATED by translator/c16_energy.py -- do not edit *)"] +
+    return "\n".join(["(* GENERATED by translator/c16_energy.py -- do not edit *)", "From Coq Require Import Reals.", "Open Scope R_scope."] + T_bi.bcol_coq(res["B"]) +
                      ["Definition %s : bool := %s." % (k, b(res[k])) for k in
-                      ("wdef_thickness_2d_only", "ke_thickness_2d_only", "wdef_rule_is_rigi", "ke_rule_is_rigi", "psi_is_half_sigma_eps")] + [""])
+                      ("wdef_thickness_2d_only", "ke_thickness_2d_only", "wdef_rule_is_rigi", "ke_rule_is_rigi", "psi_is_half_sigma_eps", "eps_is_B_u", "sigma_is_C_eps")] + [""])
 
 
 if __name__ == "__main__":
